@@ -97,6 +97,9 @@ func workerMain(seed string) {
 			out.Write(b)
 			out.WriteByte('\n')
 			out.Flush()
+			if res.MustExit {
+				os.Exit(0) // a subscriber is stuck in this process; the coordinator starts a new one
+			}
 		}
 		if err != nil {
 			break
@@ -244,6 +247,11 @@ func (p *procWorker) runJob(j *job) Outcome {
 	if r.err == nil && !hung {
 		var out Outcome
 		if err := json.Unmarshal(r.line, &out); err == nil {
+			if out.MustExit {
+				_ = p.in.Close()
+				_ = p.cmd.Wait()
+				p.cmd = nil
+			}
 			return out
 		}
 	}
